@@ -650,7 +650,48 @@ func c01F9(w *h.W) {
 	}
 }
 
+// F10: functors of the SAME NAME and different arities (and the atom of that name) meeting in head unification: every
+// head argument of the set against every call argument of the set, at the top, inside a compound and inside a list,
+// as facts and through a body unification. Whatever matches a compound argument against a head structure must compare
+// name AND arity.
+func c01F10(w *h.W) {
+	shapes := []string{"f", "f(X)", "f(a)", "f(X, Y)", "f(a, b)", "f(X, X)", "f(X, Y, Z)", "f(a, b, c)", "f(a, X, c)", "f(f(a))", "f(f(a), f(a, b))", "f(f, f)", "g(a)", "g(a, b)", "'.'(a)", "[a]", "'.'(a, [], c)", "[]", "'[]'(a)", "{}", "'{}'(a)", "'{}'(a, b)"}
+	wrap := []string{"%s", "g(%s)", "[%s]", "[a|%s]", "f(%s, %s)"}
+	for wi, wr := range wrap {
+		for hi := range shapes {
+			if !w.Mine() {
+				continue
+			}
+			mk := func(sh string) string {
+				if strings.Count(wr, "%s") == 2 {
+					return fmt.Sprintf(wr, sh, sh)
+				}
+				return fmt.Sprintf(wr, sh)
+			}
+			var cls []T
+			// the head under test first, then every other shape as later clauses of the same predicate
+			cls = append(cls, rd(fmt.Sprintf("p(%s, %d)", mk(shapes[hi]), hi)))
+			for j := range shapes {
+				if j != hi {
+					cls = append(cls, rd(fmt.Sprintf("p(%s, %d)", mk(shapes[j]), j)))
+				}
+			}
+			cls = append(cls, rd(fmt.Sprintf("q(A, I) :- A = %s, I = %d", mk(shapes[hi]), hi)), rd("r(A, I) :- p(A, I)"))
+			pc := &h.ProgCase{Steps: []h.ProgStep{h.Consult(cls...)}}
+			for _, a := range shapes {
+				for _, q := range []string{"p(%s, I)", "q(%s, I)", "A = %s, r(A, I)"} {
+					st := h.Query(rd(fmt.Sprintf(q, mk(a))), 60)
+					pc.Steps = append(pc.Steps, st)
+				}
+			}
+			pc.Steps = append(pc.Steps, h.Query(rd("p(A, I)"), 60))
+			runProgCase(w, "F10", pc, wi*100+hi)
+		}
+	}
+}
+
 func c01Work(w *h.W) {
+	c01F10(w)
 	c01F9(w)
 	c01F8(w)
 	c01F7(w)
@@ -665,7 +706,7 @@ func c01Work(w *h.W) {
 func init() {
 	h.Register(&h.Check{
 		ID: "C01",
-		Rule: "bounded-exhaustive program enumeration: F1 all clause sequences of length <= K over a 21-clause menu for p/1, q/1 (facts, rules, direct and mutual recursion, nested disjunction, call/N, lists) x 7 queries; F2 all head terms of depth <= 2 over {a,X,Y,[],f/1,g/2,'.'/2} x all call arguments of depth <= 1 and vice versa, all bodies building such a term, all pairs of depth-1 heads; F3 all clause bodies of <= L items over 17 goal shapes (call/N, nested ;/, , closures) as clause, top-level disjunct and query, and every call/N split of an 8-ary goal; F4 string literals in heads vs list calls under each double_quotes flag; F5 every construction of a list from nested partial lists against head list patterns; F6 sweep of the head size 0..34 (70) against 7 top-level disjunctive bodies, in clauses and through call/1 with as many extra free variables; F7 sweep of the number of clauses 1..24 (40) of a predicate whose first head arguments are of every kind (atoms, numbers, strings, lists, compounds, variables, non-ASCII), loaded and asserted, called with 29 first arguments in every representation; F8 predicates whose clauses stand in two or three runs (discontiguous/1) of every length 1..17 (34) with 1..3 clauses of other predicates between them; F9 database growth BETWEEN calls: a predicate of 1..14 (30) clauses with first head arguments of every kind, called with 25 goals (bound and unbound first arguments, through rules and a disjunction), then given 1, 2 or 9 more clauses by a second multifile text (also dynamic), replaced by a second text (three ways of lacking the declaration), grown by assertz/1 or asserta/1, or shifted by retract/1 + assertz/1, called again, changed once more and called again. Non-trivial = the reference produces at least one answer or an error; distinct = distinct program+queries text.",
+		Rule: "bounded-exhaustive program enumeration: F1 all clause sequences of length <= K over a 21-clause menu for p/1, q/1 (facts, rules, direct and mutual recursion, nested disjunction, call/N, lists) x 7 queries; F2 all head terms of depth <= 2 over {a,X,Y,[],f/1,g/2,'.'/2} x all call arguments of depth <= 1 and vice versa, all bodies building such a term, all pairs of depth-1 heads; F3 all clause bodies of <= L items over 17 goal shapes (call/N, nested ;/, , closures) as clause, top-level disjunct and query, and every call/N split of an 8-ary goal; F4 string literals in heads vs list calls under each double_quotes flag; F5 every construction of a list from nested partial lists against head list patterns; F6 sweep of the head size 0..34 (70) against 7 top-level disjunctive bodies, in clauses and through call/1 with as many extra free variables; F7 sweep of the number of clauses 1..24 (40) of a predicate whose first head arguments are of every kind (atoms, numbers, strings, lists, compounds, variables, non-ASCII), loaded and asserted, called with 29 first arguments in every representation; F8 predicates whose clauses stand in two or three runs (discontiguous/1) of every length 1..17 (34) with 1..3 clauses of other predicates between them; F9 database growth BETWEEN calls: a predicate of 1..14 (30) clauses with first head arguments of every kind, called with 25 goals (bound and unbound first arguments, through rules and a disjunction), then given 1, 2 or 9 more clauses by a second multifile text (also dynamic), replaced by a second text (three ways of lacking the declaration), grown by assertz/1 or asserta/1, or shifted by retract/1 + assertz/1, called again, changed once more and called again; F10 functors of the same name and different arities (f/0..f/3, g/1, g/2, './1,2,3, []/0,1, {}/0,1,2): every head argument of 22 shapes against every call argument of them, at the top, inside a compound, inside a list, as a list tail and twice in one compound, as facts, through a body unification and through a rule. Non-trivial = the reference produces at least one answer or an error; distinct = distinct program+queries text.",
 		Explanation: "state = one generated program (loaded into a fresh real interpreter); transition = one query run to exhaustion (or 8..40 answers) on the real interpreter whose full answer sequence, terminal status, error term and output are compared with the reference machine; traces_validated = programs whose every query was decided (reference within its step budget)",
 		Assumptions: []string{
 			"reference: ref/solve (goal-stack / choice-point machine with a destructive trail, ISO 13211-1 semantics, self-checked against the ISO examples for cut, catch/throw, all-solutions and database predicates)",
